@@ -289,7 +289,7 @@ def build_swap_driver(workdir, ref, defs, tops):
     return exe, ''
 
 
-def run_swap(exe, cases):
+def run_swap(exe, cases, timeout=300):
     """cases: [(id, type, bytes)] -> {id: result}; crash attributed to the last BEGIN."""
     from . import cppdriver as D
     results = {}
@@ -298,22 +298,48 @@ def run_swap(exe, cases):
     env.update(D.ASAN_ENV)
     while pending:
         text = ''.join('%s %s %s\n' % (c[0], c[1], c[2].hex() if c[2] else '-') for c in pending)
-        p = subprocess.run([exe], input=text.encode(), stdout=subprocess.PIPE, stderr=subprocess.PIPE, env=env)
+        timed_out = False
+        try:
+            p = subprocess.run([exe], input=text.encode(), stdout=subprocess.PIPE, stderr=subprocess.PIPE, env=env,
+                               timeout=timeout)
+            stdout, stderr, code = p.stdout, p.stderr, p.returncode
+        except subprocess.TimeoutExpired as e:
+            stdout, stderr, code, timed_out = e.stdout or b'', b'TIMEOUT', -999, True
         last = None
         done = set()
-        for line in p.stdout.decode('latin-1').splitlines():
+        for line in stdout.decode('latin-1').splitlines():
             if line.startswith('BEGIN '):
                 last = line.split()[1]
             elif line.startswith('R '):
                 r = D.parse_result(line)
                 results[r['id']] = r
                 done.add(r['id'])
-        if p.returncode == 0:
+        if code == 0:
             break
-        if last is None or last in done:
-            raise RuntimeError('swap driver died outside a case: %s' % p.stderr.decode('latin-1')[-800:])
-        results[last] = {'id': last, 'crash': p.stderr.decode('latin-1')[-3000:]}
         ids = [c[0] for c in pending]
+        if timed_out:
+            # a swap that never returns, or a slow machine: continue behind the finished cases; a case is reported
+            # as hanging only if it is first in line and still does not finish alone
+            if last is None:
+                raise RuntimeError('swap driver produced nothing within %d s' % timeout)
+            idx = ids.index(last)
+            if last in done:
+                pending = pending[idx + 1:]
+            elif idx > 0:
+                pending = pending[idx:]
+            else:
+                c = pending[0]
+                try:
+                    subprocess.run([exe], input=('%s %s %s\n' % (c[0], c[1], c[2].hex() if c[2] else '-')).encode(),
+                                   stdout=subprocess.PIPE, stderr=subprocess.PIPE, env=env, timeout=timeout)
+                    timeout *= 2
+                except subprocess.TimeoutExpired:
+                    results[last] = {'id': last, 'crash': 'TIMEOUT: prophy::swap does not return within %d s' % timeout}
+                    pending = pending[1:]
+            continue
+        if last is None or last in done:
+            raise RuntimeError('swap driver died outside a case: %s' % stderr.decode('latin-1')[-800:])
+        results[last] = {'id': last, 'crash': stderr.decode('latin-1')[-3000:]}
         pending = pending[ids.index(last) + 1:]
     return results
 
